@@ -54,7 +54,20 @@ impl Rep {
         self.ord += 1;
         if nontrivial {
             let h = crate::rng::derive(self.case_seed, &[self.op_index, self.ord, crate::rng::tag(prop)]);
-            self.nontrivial.entry(prop.to_string()).or_default().insert(h);
+            self.insert_fingerprint(prop, h);
+        }
+    }
+
+    /// Fingerprints of non-trivial evaluations are kept to count distinct ones. The sets are
+    /// bounded (per case and in total): beyond the bound evaluations are only counted, so the
+    /// reported number of distinct non-trivial evaluations is a lower bound.
+    fn insert_fingerprint(&mut self, prop: &str, h: u64) {
+        const PER_CASE_CAP: usize = 4096;
+        let set = self.nontrivial.entry(prop.to_string()).or_default();
+        if set.len() < PER_CASE_CAP {
+            set.insert(h);
+        } else {
+            *self.features.entry("nontrivial_evaluations_beyond_fingerprint_cap".to_string()).or_default() += 1;
         }
     }
 
@@ -62,7 +75,7 @@ impl Rep {
     pub fn eval_keyed(&mut self, prop: &str, nontrivial: bool, key: u64) {
         *self.evals.entry(prop.to_string()).or_default() += 1;
         if nontrivial {
-            self.nontrivial.entry(prop.to_string()).or_default().insert(key);
+            self.insert_fingerprint(prop, key);
         }
     }
 
@@ -111,8 +124,22 @@ impl Rep {
         for (k, v) in other.evals {
             *self.evals.entry(k).or_default() += v;
         }
+        const TOTAL_CAP: usize = 4_000_000;
         for (k, v) in other.nontrivial {
-            self.nontrivial.entry(k).or_default().extend(v);
+            let set = self.nontrivial.entry(k).or_default();
+            if set.len() + v.len() <= TOTAL_CAP {
+                set.extend(v);
+            } else {
+                let mut dropped = 0u64;
+                for h in v {
+                    if set.len() < TOTAL_CAP {
+                        set.insert(h);
+                    } else {
+                        dropped += 1;
+                    }
+                }
+                *self.features.entry("nontrivial_evaluations_beyond_fingerprint_cap".to_string()).or_default() += dropped;
+            }
         }
         if !other.findings.is_empty() {
             self.diverged = true;
